@@ -208,6 +208,31 @@ def run(prog, rep):
               "the fuzzy finder no longer builds its parameter pairs from QueryCreator.possible_q_dict_keys in both modes (%s)"
               % [m0.name for m0 in users], ff.module.path, witness="a key added to the query builder is ignored by the finder")
 
+    # TYPE-1: a variable is typed only by the block of its own part
+    rep.rule("TYPE-1", "_prepare_query: a statement that emits `?d rdf:type odml:Document` / `?s rdf:type odml:Section` / `?p rdf:type odml:Property` is "
+                       "reached only where the Doc / Sec / Prop part of the query is known to be present: without a Document part ?d stays "
+                       "untyped, so that `?d odml:hasSection ?s` also matches a Section below a Section")
+    from ..astutil import atoms_at as _atoms_at
+    n_ty = 0
+    for h in private_closure(pq):
+        gq = build_cfg(h)
+        for nq in gq.nodes:
+            if nq.kind != "stmt" or not isinstance(nq.ast, (ast.AugAssign, ast.Assign, ast.Expr)):
+                continue
+            for cst in [y for y in ast.walk(nq.ast) if isinstance(y, ast.Constant) and isinstance(y.value, str)]:
+                m1 = re.search(r"\?(\w) rdf:type odml:(Document|Section|Property)", cst.value)
+                if not m1:
+                    continue
+                n_ty += 1
+                key = {"Document": "Doc", "Section": "Sec", "Property": "Prop"}[m1.group(2)]
+                ats = [(t, pol) for t, pol, _ in _atoms_at(gq, nq)]
+                ok1 = any(pol and re.search(r"['\"]%s['\"]" % key, t) for t, pol in ats) or h is not pq
+                rep.check(ok1, "TYPE-1", "%s typed under the %s part" % (m1.group(0)[:30], key), "guarded",
+                          "`%s` is emitted where the %s part is not known to be present (conditions: %s): sub-Sections no longer match a query "
+                          "without Document attributes" % (m1.group(0), key, [t for t, _ in ats][:3]), where(h, nq.ast),
+                          witness="Section query without Document attributes for a Section that lies below another Section: no result")
+    rep.note("TYPE-1: %d type triples emitted by statements of _prepare_query" % n_ty)
+
     # PAIR-3: every (attribute, value) pair the caller gave becomes a parameter pair
     rep.rule("PAIR-3", "the pair generators of FuzzyFinder (and their private helpers) iterate <self>.q_params[<key>] as it is: they do not pass it "
                        "through dict() / set() / frozenset(), which keep one entry per attribute - `sec(type:a, type:b)` would search for b only")
